@@ -18,6 +18,7 @@ var allSpecs = []HarnessSpec{
 	{Prop: "C01", Func: "ZZ_C01_Deps", Tag: "shape=0,fine-grained", Tiers: "thorough", POR: true, Replay: "native", Params: map[string]int{"shape": 0, "maxconc": 1, "failing": 1}},
 	{Prop: "C02", Func: "ZZ_C02_Order", POR: true, Replay: "native", Twin: true, Params: map[string]int{"maxconc": 0, "__coarse": 1}, TParams: map[string]int{"maxconc": 1}},
 	{Prop: "C02", Func: "ZZ_C02_SharedCall", POR: true, Replay: "native", Params: map[string]int{"__coarse": 1}},
+	{Prop: "C02", Func: "ZZ_C02_PassedData", Replay: "native", Twin: true, Params: map[string]int{"__tmplsym": 1}},
 	{Prop: "C02", Func: "ZZ_C02_Compile", Replay: "native", Twin: true, Params: map[string]int{"__tmplsrc": 1}},
 	{Prop: "C03", Func: "ZZ_C03_FailStop", Tag: "shape=0", POR: true, Replay: "native", Twin: true, Params: map[string]int{"shape": 0, "__coarse": 1}},
 	{Prop: "C03", Func: "ZZ_C03_FailStop", Tag: "shape=1", POR: true, Replay: "native", Params: map[string]int{"shape": 1, "__coarse": 1}},
